@@ -242,6 +242,54 @@ func (tb *TB) Ite(c, a, b *Term) *Term {
 	if a.Op == "ite" && a.Args[0] == c {
 		return tb.Ite(c, a.Args[1], b)
 	}
+	// ite(c, S+a', S+b') = S + ite(c, a', b'): the linear part common to both branches is
+	// factored out, so accumulated sums (sizes, cursors) stay flat linear forms whose
+	// conditional contributions are separate atoms; two accumulations of the same
+	// contributions then become the same term.
+	if a.Sort > 8 {
+		la, lb := tb.lin(a), tb.lin(b)
+		if len(la.atoms) >= 1 && len(lb.atoms) >= 1 {
+			common := &linForm{n: a.Sort}
+			i, j := 0, 0
+			for i < len(la.atoms) && j < len(lb.atoms) {
+				switch {
+				case la.atoms[i].id < lb.atoms[j].id:
+					i++
+				case lb.atoms[j].id < la.atoms[i].id:
+					j++
+				default:
+					if la.coeffs[i] == lb.coeffs[j] {
+						common.atoms = append(common.atoms, la.atoms[i])
+						common.coeffs = append(common.coeffs, la.coeffs[i])
+					}
+					i++
+					j++
+				}
+			}
+			if len(common.atoms) >= 1 {
+				ra := tb.fromLin(linCombine(la, 1, common, mask(a.Sort)))
+				rb := tb.fromLin(linCombine(lb, 1, common, mask(a.Sort)))
+				return tb.Add(tb.fromLin(common), tb.Ite(c, ra, rb))
+			}
+		}
+	}
+	return tb.mk(&Term{Op: "ite", Sort: a.Sort, Args: []*Term{c, a, b}})
+}
+
+// mkIteRaw builds an ite without the difference normalisation (avoids re-entering it).
+func (tb *TB) mkIteRaw(c, a, b *Term) *Term {
+	if c.IsTrue() {
+		return a
+	}
+	if c.IsFalse() {
+		return b
+	}
+	if a == b {
+		return a
+	}
+	if c.Op == "not" {
+		return tb.mkIteRaw(c.Args[0], b, a)
+	}
 	return tb.mk(&Term{Op: "ite", Sort: a.Sort, Args: []*Term{c, a, b}})
 }
 
